@@ -49,20 +49,23 @@ RNG_SPEC = 'contracts/random.spec'
 for entry, car in RNG_CARRIERS.items():
     jump = 'jump' in entry
     j = job(id='C20.' + entry[6:], tu='tier_a/random.cpp', entry=entry, props=['C20', 'C11'], unwind=(66 if '256' in entry else 34) if jump else 6,
-        objbits=8, carriers=car, timeout=300, case_key=entry[6:])
+        objbits=8, carriers=car, timeout=150, case_key=entry[6:])
+    if 'splitmix' in entry or 'x256ss' in entry or 'x128ss' in entry or 'starstar' in entry: j.update(backend='portfolio', portfolio=['cvc5', 'z3'])   # equal multiplier chains: decided at term level
+    if jump: j.update(backend='portfolio', portfolio=['z3', 'cvc5'])          # XOR-network equivalence: term-level rewriting decides it (12 s); SAT does not finish
     if 'nonzero' in entry:
-        j.update(unwind=3, backend='cvc5')     # unwinding assertion at 3 = "at most two iterations": termination for every state
+        j.update(unwind=3, backend='portfolio', portfolio=['cvc5', 'z3'])     # unwinding assertion at 3 = "at most two iterations": termination for every state
     if 'seed' in entry or entry == 'proof_rngt':
         # modular: the seeding source is replaced by its contract (enforced in C20.dfcc.nonzero*)
-        j.update(mode='dfcc', dfcc={'contracts': RNG_SPEC, 'replace': ['nonzero64' if '64' in entry or entry == 'proof_rngt' else 'nonzero32']})
-job(id='C20.spec_is_reference', tu='tier_a/random.cpp', entry='proof_spec_is_reference', props=['C20'], unwind=3, objbits=8, backend='cvc5', timeout=300,
+        j.update(mode='dfcc', objbits=10, backend='portfolio', portfolio=['z3', 'cvc5'], dfcc={'contracts': RNG_SPEC, 'replace': ['nonzero64' if '64' in entry or entry == 'proof_rngt' else 'nonzero32']})
+job(id='C20.spec_is_reference', tu='tier_a/random.cpp', entry='proof_spec_is_reference', props=['C20'], unwind=3, objbits=8, backend='portfolio', portfolio=['cvc5', 'z3'], timeout=300,
     carriers=[], case_key='contract spec = reference')
 for alias, entry, repl, kw in (('raw64', 'dfcc_raw64', [], {}), ('raw32', 'dfcc_raw32', [], {}),
-                               ('nonzero64', 'dfcc_nonzero64', ['raw64'], {'unwind': 3, 'backend': 'cvc5'}),
-                               ('nonzero32', 'dfcc_nonzero32', ['raw32'], {'unwind': 3, 'backend': 'cvc5'})):
-    job(id='C20.dfcc.' + alias, tu='tier_a/random.cpp', entry=entry, props=['C20', 'C11'], objbits=8, timeout=300, mode='dfcc',
+                               ('nonzero64', 'dfcc_nonzero64', ['raw64'], {'unwind': 3}),
+                               ('nonzero32', 'dfcc_nonzero32', ['raw32'], {'unwind': 3})):
+    kw.setdefault('backend', 'portfolio'); kw.setdefault('portfolio', ['cvc5', 'z3'])
+    job(id='C20.dfcc.' + alias, tu='tier_a/random.cpp', entry=entry, props=['C20', 'C11'], objbits=10, timeout=300, mode='dfcc',
         dfcc={'contracts': RNG_SPEC, 'enforce': [alias], 'replace': repl}, carriers=[r'SimpleRandomT<[48]u>::(raw|uint)(32|64)'],
-        case_key='contract ' + alias, **({'unwind': 6} if not kw else kw))
+        case_key='contract ' + alias, **(dict(kw, unwind=kw.get('unwind', 6))))
 job(id='C20.dfcc.uniform', tu='tier_a/random.cpp', entry='dfcc_uniform', props=['C20', 'C11'], objbits=8, timeout=300, mode='dfcc', unwind=3,
     dfcc={'contracts': RNG_SPEC, 'enforce': ['uniform32', 'uniform64']}, carriers=[r'hfsm2::detail::uniform'], case_key='contract uniform')
 
@@ -85,3 +88,20 @@ stream_jobs(31, 5, 12, 'quick'); stream_jobs(70, 1, 32, 'quick'); stream_jobs(64
 for i, (a, b) in enumerate(((2, 31), (4, 30), (7, 29), (9, 28), (10, 27), (11, 26), (13, 25), (14, 24), (15, 23), (17, 22), (18, 21), (19, 20), (32, 32))):
     stream_jobs(70, a, b, 'thorough')
 stream_jobs(8, 1, 7, 'thorough'); stream_jobs(1, 1, 1, 'thorough') if False else None
+
+# ------------------------------------------------------------------ Tier B: RegistryT over symbolic structure tables
+REG_CARRIERS = {
+ 'proof_activity_queries': (['C13', 'C01', 'C11'], [r'RegistryT<.*>::isActive\(unsigned short\) const', r'RegistryT<.*>::activeSubState', r'RegistryT<.*>::isResumable', r'RegistryT<.*>::forkParent']),
+ 'proof_active_sub_other': (['C13', 'C11'], [r'RegistryT<.*>::activeSubState']),
+ 'proof_pending_none':     (['C13'], [r'RegistryT<.*>::isPendingEnter', r'RegistryT<.*>::isPendingExit', r'RegistryT<.*>::isPendingChange']),
+ 'proof_pending_relation': (['C13', 'C11'], [r'RegistryT<.*>::isPendingEnter', r'RegistryT<.*>::isPendingExit', r'RegistryT<.*>::isPendingChange']),
+ 'proof_request_immediate': (['C02', 'C11'], [r'RegistryT<.*>::requestImmediate']),
+ 'proof_request_scheduled': (['C02', 'C13', 'C11'], [r'RegistryT<.*>::requestScheduled']),
+ 'proof_backup_restore':   (['C04', 'C11'], [r'RegistryT<.*>::backup', r'RegistryT<.*>::restore', r'RegistryT<.*>::operator!=']),
+ 'proof_clear':            (['C01', 'C11'], [r'RegistryT<.*>::clearRequests', r'RegistryT<.*>::clear\(\)', r'RegistryT<.*>::empty']),
+}
+for variant, defs in (('ortho', {}), ('compo', {'NO_ORTHO': None})):
+    for entry, (props, car) in REG_CARRIERS.items():
+        job(id='B.registry.%s.%s' % (variant, entry[6:]), tu='tier_b/registry.cpp', defs=defs, entry=entry, props=props, unwind=12,
+            unwindset={'verif_havoc.0': 4096}, objbits=10, carriers=car, timeout=600,
+            case_key='RegistryT %s, symbolic tables (%s)' % ('general' if variant == 'ortho' else 'ORTHO_COUNT==0', '10 states/3 compo/1 ortho' if variant == 'ortho' else '8 states/3 compo'))
